@@ -102,6 +102,10 @@ EXEMPT_OPS = [
     ("rate.AimdRateControl.update", "sqrt", "math.sqrt(self.var_max_bitrate_kbps * self.avg_max_bitrate_kbps)",
      "var_max_bitrate_kbps is in [0.4, 2.5] (class invariant); avg_max_bitrate_kbps is a convex combination of measured throughputs, "
      "which are >= 0 because RateCounter._total is the sum of the live buckets (paired update, rule C15-WINDOW) of sizes >= 0"),
+    ("rate.OveruseEstimator.update_noise_estimate", "pow", "pow(1 - alpha, ts_delta * 30.0 / 1000.0)",
+     "base 1 - alpha is 0.99 or 0.998 (proven), so the power can only overflow for a large negative exponent; ts_delta is the minimum over "
+     "ts_delta_hist and the current timestamp_delta_ms, all of which are deltas.timestamp * TIMESTAMP_TO_MS with deltas.timestamp = uint32_add(...) >= 0 "
+     "(modular difference); the chain through the dataclass field and the history list is beyond the interval domain"),
     ("rtcsctptransport.RTCSctpTransport._send_sack", "index", "gaps[-1]",
      "path correlation: the branch is taken only when tsn == gap_next, and gap_next is non-None only after a first append to gaps"),
     ("rtp.RtcpRtpfbPacket.__bytes__", "shift", "1 << d",
